@@ -81,11 +81,19 @@ func (g *Gen) ViolateOne() *Constraint {
 	cands := []cand{
 		{"unknown-method", true, func() []string {
 			b["preferenceFunction"] = "noSuchMethod"
+			if g.O.IDPrefix != "" {
+				// free text like the identifiers: possibly long, possibly outside ASCII
+				b["preferenceFunction"] = strings.Repeat(g.O.IDPrefix, r.Range(1, 400))
+			}
 			return AllMethods
 		}},
 		{"empty-method", true, func() []string { b["preferenceFunction"] = "  "; return nil }},
 		{"unknown-bias", true, func() []string {
-			addBias(J{"name": "noSuchBias", "props": J{}})
+			name := "noSuchBias"
+			if g.O.IDPrefix != "" {
+				name = strings.Repeat(g.O.IDPrefix, r.Range(1, 400))
+			}
+			addBias(J{"name": name, "props": J{}})
 			return AllBiases
 		}},
 		{"unknown-ordering", true, func() []string {
@@ -306,7 +314,7 @@ func (g *Gen) Hostile() (kind string, body []byte) {
 		n := r.Range(24, 48)
 		cs := jarr(b["criteria"])
 		for i := 0; i < n; i++ {
-			id := "extra" + string(rune('a'+i%26)) + string(rune('a'+i/26))
+			id := g.O.IDPrefix + "extra" + string(rune('a'+i%26)) + string(rune('a'+i/26))
 			cs = append(cs, J{"id": id, "type": "gain"})
 			for _, a := range jarr(b["knownAlternatives"]) {
 				if m := jmap(jmap(a)["criteria"]); m != nil {
@@ -361,6 +369,11 @@ func (g *Gen) Hostile() (kind string, body []byte) {
 		// moderate values plus values so small that adding them changes nothing in float64 (a step
 		// that makes no progress is a liveness matter; merely slow inputs such as 1e-9 are not generated)
 		v := r.PickF(0, -1, -0.2, 0.1, 1, 2, 1e6, -1e6, 0.5, 1e-20, 5e-324)
+		if r.Bool(0.3) {
+			// counts, sizes and indices taken from the request: beyond 32 bits, beyond what can be
+			// allocated, beyond int64
+			v = r.PickF(65536, 2147483648, 3e9, 1e10, 1e12, 1e15, 9.3e18, 1e300, -3e9)
+		}
 		lf.set(v)
 		return "unusual-parameter:" + lf.name, JSONBytes(b)
 	case 0:
